@@ -1,7 +1,7 @@
 /-
   PM/CommuteGuard.lean — the decidable guard under which two replace steps with separated ranges both
   apply after rebasing (C17, `commute_succeeds_replace`; with `(from, to, slice)` of a replace-around step in
-  place of one replace step: `commute_succeeds_around_before_partial` / `…_after_partial`): one of the two steps happens entirely inside an
+  place of one replace step: `commute_succeeds_around`): one of the two steps happens entirely inside an
   element node the other one does not touch.  Specification predicates over the model's data (not models
   of library functions); the harness evaluates them on the pairs it generates (driver op `commuteGuard`)
   and checks the implication on the real code.
